@@ -37,7 +37,7 @@ func init() {
 
 // ---------- resource specs ----------
 
-type rspec struct {
+type c07Rspec struct {
 	APIVersion string            `json:"apiVersion"`
 	Kind       string            `json:"kind"`
 	Name       string            `json:"name"`
@@ -50,7 +50,7 @@ type rspec struct {
 var c07Factory = provider.NewDefaultDepProvider().GetResourceFactory()
 var c07RmF = resmap.NewFactory(c07Factory)
 
-func (s rspec) build() (*resource.Resource, error) {
+func (s c07Rspec) build() (*resource.Resource, error) {
 	if s.Empty {
 		return c07Factory.FromMap(map[string]interface{}{})
 	}
@@ -99,7 +99,7 @@ const (
 	c07InternalPx = "internal.config.kubernetes.io/"
 )
 
-type kindSpec struct{ api, kind string }
+type c07KindSpec struct{ api, kind string }
 
 // long strings that occur in almost every case are bound to short identifiers in the header of the
 // case files (coqc's parsing time is proportional to the size of the string literals)
@@ -128,23 +128,23 @@ func c07Header() string {
 	return b.String()
 }
 
-// qs prints a string term, abbreviated when possible
-func qs(s string) string {
+// c07Qs prints a string term, abbreviated when possible
+func c07Qs(s string) string {
 	if id, ok := c07Abbrev[s]; ok {
 		return id
 	}
 	return coqStr(s)
 }
 
-func qsList(l []string) string {
+func c07QsList(l []string) string {
 	parts := make([]string, len(l))
 	for i, s := range l {
-		parts[i] = qs(s)
+		parts[i] = c07Qs(s)
 	}
 	return "[" + strings.Join(parts, "; ") + "]"
 }
 
-var c07Kinds = []kindSpec{
+var c07Kinds = []c07KindSpec{
 	{"v1", "ConfigMap"}, {"v1", "ConfigMap"}, {"v1", "Secret"}, {"apps/v1", "Deployment"}, {"v1", "Service"},
 	{"v1", "Namespace"}, {"rbac.authorization.k8s.io/v1", "ClusterRole"}, {"rbac.authorization.k8s.io/v1", "Role"},
 	{"apiextensions.k8s.io/v1", "CustomResourceDefinition"}, {"apiregistration.k8s.io/v1", "APIService"},
@@ -163,7 +163,7 @@ type c07gen struct {
 	// transformers, CopyMergeMetaDataFieldsFrom and ApplySmPatch do; odd sequences therefore use only the
 	// operations that do not write names.
 	odd     bool
-	pending []opspec // operations forced to come next (adversarial two-step scenarios)
+	pending []c07Opspec // operations forced to come next (adversarial two-step scenarios)
 }
 
 func (g *c07gen) tag() string {
@@ -171,9 +171,9 @@ func (g *c07gen) tag() string {
 	return fmt.Sprintf("t%d", g.ntag)
 }
 
-func (g *c07gen) spec() rspec {
+func (g *c07gen) spec() c07Rspec {
 	k := c07Kinds[g.rng.Intn(len(c07Kinds))]
-	s := rspec{APIVersion: k.api, Kind: k.kind, Name: g.rng.Pick(c07Names), Ns: g.rng.Pick(c07Nss), Tag: g.tag()}
+	s := c07Rspec{APIVersion: k.api, Kind: k.kind, Name: g.rng.Pick(c07Names), Ns: g.rng.Pick(c07Nss), Tag: g.tag()}
 	if g.rng.Chance(3) {
 		s.Name = "a,b" // CSV-breaking name: StorePreviousId then yields unequal list lengths (panic in PrevIds)
 	}
@@ -209,13 +209,13 @@ func (g *c07gen) spec() rspec {
 		s.Ann = ann
 	}
 	if g.rng.Chance(3) {
-		s = rspec{Empty: true}
+		s = c07Rspec{Empty: true}
 	}
 	return s
 }
 
 // a spec meant to be absorbed (generator output): has a behaviour and aims at an existing resource
-func (g *c07gen) absorbSpec(cur []*resource.Resource) rspec {
+func (g *c07gen) absorbSpec(cur []*resource.Resource) c07Rspec {
 	s := g.spec()
 	s.Empty = false
 	if s.Kind == "" {
@@ -261,7 +261,7 @@ func (g *c07gen) absorbSpec(cur []*resource.Resource) rspec {
 
 // ---------- operations ----------
 
-type idspec struct {
+type c07Idspec struct {
 	Group   string `json:"group"`
 	Version string `json:"version"`
 	Kind    string `json:"kind"`
@@ -269,30 +269,30 @@ type idspec struct {
 	Ns      string `json:"ns"`
 }
 
-type opspec struct {
-	Op    string   `json:"op"`
-	Res   []rspec  `json:"res,omitempty"`
-	Id    *idspec  `json:"id,omitempty"`
-	Str   string   `json:"str,omitempty"`
-	Sel   []int    `json:"sel,omitempty"` // indices of the selected resources (OSmPatch)
-	PName string   `json:"pname,omitempty"`
-	PKind string   `json:"pkind,omitempty"`
-	AllowN bool    `json:"allowN,omitempty"`
-	AllowK bool    `json:"allowK,omitempty"`
-	Del   bool     `json:"del,omitempty"`
-	Bm    []string `json:"bm,omitempty"`
+type c07Opspec struct {
+	Op     string     `json:"op"`
+	Res    []c07Rspec `json:"res,omitempty"`
+	Id     *c07Idspec `json:"id,omitempty"`
+	Str    string     `json:"str,omitempty"`
+	Sel    []int      `json:"sel,omitempty"` // indices of the selected resources (OSmPatch)
+	PName  string     `json:"pname,omitempty"`
+	PKind  string     `json:"pkind,omitempty"`
+	AllowN bool       `json:"allowN,omitempty"`
+	AllowK bool       `json:"allowK,omitempty"`
+	Del    bool       `json:"del,omitempty"`
+	Bm     []string   `json:"bm,omitempty"`
 }
 
 type seq07 struct {
-	Init []rspec  `json:"init"`
-	Ops  []opspec `json:"ops"`
+	Init []c07Rspec  `json:"init"`
+	Ops  []c07Opspec `json:"ops"`
 }
 
-func toResId(i idspec) resid.ResId {
+func c07ToResId(i c07Idspec) resid.ResId {
 	return resid.NewResIdWithNamespace(resid.NewGvk(i.Group, i.Version, i.Kind), i.Name, i.Ns)
 }
 
-func mustConfig(p resmap.TransformerPlugin, cfg string) resmap.TransformerPlugin {
+func c07MustConfig(p resmap.TransformerPlugin, cfg string) resmap.TransformerPlugin {
 	h := resmap.NewPluginHelpers(nil, nil, c07RmF, nil)
 	if err := p.Config(h, []byte(cfg)); err != nil {
 		panic("harness: plugin config: " + err.Error())
@@ -301,17 +301,17 @@ func mustConfig(p resmap.TransformerPlugin, cfg string) resmap.TransformerPlugin
 }
 
 // state observed on the implementation
-type obsRes struct {
+type c07ObsRes struct {
 	id    resid.ResId
 	ann   map[string]string
 	empty bool
 	tag   string
 }
 
-func observe(m resmap.ResMap) []obsRes {
-	out := []obsRes{}
+func c07Observe(m resmap.ResMap) []c07ObsRes {
+	out := []c07ObsRes{}
 	for _, r := range m.Resources() {
-		o := obsRes{id: r.CurId(), ann: r.GetAnnotations(), empty: r.IsNilOrEmpty()}
+		o := c07ObsRes{id: r.CurId(), ann: r.GetAnnotations(), empty: r.IsNilOrEmpty()}
 		if !o.empty {
 			if v, err := r.GetFieldValue("tag"); err == nil {
 				if s, ok := v.(string); ok {
@@ -324,12 +324,12 @@ func observe(m resmap.ResMap) []obsRes {
 	return out
 }
 
-func coqId(id resid.ResId) string {
-	return fmt.Sprintf("(mkId (mkGvk %s %s %s %s) %s %s)", qs(id.Group), qs(id.Version), qs(id.Kind),
-		coqBool(id.IsClusterScoped()), qs(id.Name), qs(id.Namespace))
+func c07CoqId(id resid.ResId) string {
+	return fmt.Sprintf("(mkId (mkGvk %s %s %s %s) %s %s)", c07Qs(id.Group), c07Qs(id.Version), c07Qs(id.Kind),
+		coqBool(id.IsClusterScoped()), c07Qs(id.Name), c07Qs(id.Namespace))
 }
 
-func coqAnn(a map[string]string) string {
+func c07CoqAnn(a map[string]string) string {
 	keys := make([]string, 0, len(a))
 	for k := range a {
 		keys = append(keys, k)
@@ -337,46 +337,46 @@ func coqAnn(a map[string]string) string {
 	sort.Strings(keys)
 	parts := make([]string, len(keys))
 	for i, k := range keys {
-		parts[i] = fmt.Sprintf("(%s, %s)", qs(k), qs(a[k]))
+		parts[i] = fmt.Sprintf("(%s, %s)", c07Qs(k), c07Qs(a[k]))
 	}
 	return "[" + strings.Join(parts, "; ") + "]"
 }
 
-func coqObs(o obsRes) string {
-	return fmt.Sprintf("(mkRes %s %s %s %s)", coqId(o.id), coqAnn(o.ann), coqBool(o.empty), coqStr(o.tag))
+func c07CoqObs(o c07ObsRes) string {
+	return fmt.Sprintf("(mkRes %s %s %s %s)", c07CoqId(o.id), c07CoqAnn(o.ann), coqBool(o.empty), coqStr(o.tag))
 }
 
 // ids, tags and emptiness only (what is compared after every step)
-func coqIds(st []obsRes) string {
+func c07CoqIds(st []c07ObsRes) string {
 	parts := make([]string, len(st))
 	for i, o := range st {
-		parts[i] = fmt.Sprintf("(%s, %s, %s)", coqId(o.id), coqStr(o.tag), coqBool(o.empty))
+		parts[i] = fmt.Sprintf("(%s, %s, %s)", c07CoqId(o.id), coqStr(o.tag), coqBool(o.empty))
 	}
 	return "[" + strings.Join(parts, "; ") + "]"
 }
 
-func coqState(st []obsRes) string {
+func c07CoqState(st []c07ObsRes) string {
 	parts := make([]string, len(st))
 	for i, o := range st {
-		parts[i] = coqObs(o)
+		parts[i] = c07CoqObs(o)
 	}
 	return "[" + strings.Join(parts, "; ") + "]"
 }
 
 // the model's view of a resource that has not been put into a map yet
-func coqSpec(s rspec) (string, *resource.Resource, error) {
+func c07CoqSpec(s c07Rspec) (string, *resource.Resource, error) {
 	r, err := s.build()
 	if err != nil {
 		return "", nil, err
 	}
-	o := obsRes{id: r.CurId(), ann: r.GetAnnotations(), empty: r.IsNilOrEmpty(), tag: s.Tag}
+	o := c07ObsRes{id: r.CurId(), ann: r.GetAnnotations(), empty: r.IsNilOrEmpty(), tag: s.Tag}
 	if o.empty {
 		o.tag = ""
 	}
-	return coqObs(o), r, nil
+	return c07CoqObs(o), r, nil
 }
 
-func idsUnique(st []obsRes) bool {
+func c07IdsUnique(st []c07ObsRes) bool {
 	for i := range st {
 		for j := i + 1; j < len(st); j++ {
 			if st[i].id.Equals(st[j].id) {
@@ -387,7 +387,7 @@ func idsUnique(st []obsRes) bool {
 	return true
 }
 
-func anyEmpty(st []obsRes) bool {
+func c07AnyEmpty(st []c07ObsRes) bool {
 	for _, o := range st {
 		if o.empty {
 			return true
@@ -398,7 +398,7 @@ func anyEmpty(st []obsRes) bool {
 
 // uniform: the kind recorded first in previousKinds (if any) is the current kind, and the bookkeeping
 // lists are well formed — the hypothesis of the prefix/suffix step theorem
-func uniformKinds(st []obsRes) bool {
+func c07UniformKinds(st []c07ObsRes) bool {
 	for _, o := range st {
 		pn, ok := o.ann[c07PrevNames]
 		if !ok {
@@ -417,8 +417,8 @@ func uniformKinds(st []obsRes) bool {
 	return true
 }
 
-// hashSideConditions evaluates hash_lengths_equal and no_plain_clash of the model on the observed state.
-func hashSideConditions(st []obsRes, tab [][2]string) bool {
+// c07HashSideConditions evaluates hash_lengths_equal and no_plain_clash of the model on the observed state.
+func c07HashSideConditions(st []c07ObsRes, tab [][2]string) bool {
 	h := map[string]string{}
 	l := -1
 	for _, e := range tab {
@@ -450,7 +450,7 @@ func hashSideConditions(st []obsRes, tab [][2]string) bool {
 	return true
 }
 
-func internalKeysPresent(a map[string]string, bm []string) []string {
+func c07InternalKeysPresent(a map[string]string, bm []string) []string {
 	want := map[string]bool{}
 	for _, b := range bm {
 		want[b] = true
@@ -467,11 +467,11 @@ func internalKeysPresent(a map[string]string, bm []string) []string {
 				bad = append(bad, k)
 			}
 		case strings.HasPrefix(k, c07InternalPx):
-			if isBuildAnnotation(k) {
+			if c07IsBuildAnnotation(k) {
 				bad = append(bad, k)
 			}
 		default:
-			if isBuildAnnotation(k) {
+			if c07IsBuildAnnotation(k) {
 				bad = append(bad, k)
 			}
 		}
@@ -480,7 +480,7 @@ func internalKeysPresent(a map[string]string, bm []string) []string {
 	return bad
 }
 
-func isBuildAnnotation(k string) bool {
+func c07IsBuildAnnotation(k string) bool {
 	for _, b := range resource.BuildAnnotations {
 		if b == k {
 			return true
@@ -489,8 +489,8 @@ func isBuildAnnotation(k string) bool {
 	return false
 }
 
-// execOp runs one operation on the implementation. It returns the (possibly new) map.
-func execOp(m resmap.ResMap, o opspec, built [][]*resource.Resource, idx int) (resmap.ResMap, string, string) {
+// c07ExecOp runs one operation on the implementation. It returns the (possibly new) map.
+func c07ExecOp(m resmap.ResMap, o c07Opspec, built [][]*resource.Resource, idx int) (resmap.ResMap, string, string) {
 	var nm resmap.ResMap = m
 	cls, msg := protect(func() error {
 		switch o.Op {
@@ -508,7 +508,7 @@ func execOp(m resmap.ResMap, o opspec, built [][]*resource.Resource, idx int) (r
 			_, err := m.Replace(built[idx][0])
 			return err
 		case "remove":
-			return m.Remove(toResId(*o.Id))
+			return m.Remove(c07ToResId(*o.Id))
 		case "absorball":
 			other := resmap.New()
 			for _, r := range built[idx] {
@@ -524,17 +524,17 @@ func execOp(m resmap.ResMap, o opspec, built [][]*resource.Resource, idx int) (r
 			m.Clear()
 			return nil
 		case "prefix":
-			p := mustConfig(builtins.NewPrefixTransformerPlugin(), fmt.Sprintf("prefix: %q\nfieldSpecs:\n- path: metadata/name\n", o.Str))
+			p := c07MustConfig(builtins.NewPrefixTransformerPlugin(), fmt.Sprintf("prefix: %q\nfieldSpecs:\n- path: metadata/name\n", o.Str))
 			return p.Transform(m)
 		case "suffix":
-			p := mustConfig(builtins.NewSuffixTransformerPlugin(), fmt.Sprintf("suffix: %q\nfieldSpecs:\n- path: metadata/name\n", o.Str))
+			p := c07MustConfig(builtins.NewSuffixTransformerPlugin(), fmt.Sprintf("suffix: %q\nfieldSpecs:\n- path: metadata/name\n", o.Str))
 			return p.Transform(m)
 		case "namespace":
-			p := mustConfig(builtins.NewNamespaceTransformerPlugin(),
+			p := c07MustConfig(builtins.NewNamespaceTransformerPlugin(),
 				fmt.Sprintf("metadata:\n  namespace: %q\nfieldSpecs:\n- path: metadata/namespace\n  create: true\n", o.Str))
 			return p.Transform(m)
 		case "hash":
-			p := mustConfig(builtins.NewHashTransformerPlugin(), "")
+			p := c07MustConfig(builtins.NewHashTransformerPlugin(), "")
 			return p.Transform(m)
 		case "sortlegacy":
 			return krusty.VerifC07LegacySort(m)
@@ -584,12 +584,12 @@ func execOp(m resmap.ResMap, o opspec, built [][]*resource.Resource, idx int) (r
 			return nil
 		case "strip":
 			m.RemoveBuildAnnotations()
-			if !strIn("originAnnotations", o.Bm) {
+			if !c07StrIn("originAnnotations", o.Bm) {
 				if err := m.RemoveOriginAnnotations(); err != nil {
 					return err
 				}
 			}
-			if !strIn("transformerAnnotations", o.Bm) {
+			if !c07StrIn("transformerAnnotations", o.Bm) {
 				if err := m.RemoveTransformerAnnotations(); err != nil {
 					return err
 				}
@@ -601,7 +601,7 @@ func execOp(m resmap.ResMap, o opspec, built [][]*resource.Resource, idx int) (r
 	return nm, cls, msg
 }
 
-func strIn(s string, l []string) bool {
+func c07StrIn(s string, l []string) bool {
 	for _, x := range l {
 		if x == s {
 			return true
@@ -610,7 +610,7 @@ func strIn(s string, l []string) bool {
 	return false
 }
 
-func coqOp(o opspec, opTerms []string, st []obsRes, hashTab [][2]string) string {
+func c07CoqOp(o c07Opspec, opTerms []string, st []c07ObsRes, hashTab [][2]string) string {
 	switch o.Op {
 	case "append":
 		return "(OAppend " + opTerms[0] + ")"
@@ -619,7 +619,7 @@ func coqOp(o opspec, opTerms []string, st []obsRes, hashTab [][2]string) string 
 	case "replace":
 		return "(OReplace " + opTerms[0] + ")"
 	case "remove":
-		return "(ORemove " + coqId(toResId(*o.Id)) + ")"
+		return "(ORemove " + c07CoqId(c07ToResId(*o.Id)) + ")"
 	case "absorball":
 		return "(OAbsorbAll [" + strings.Join(opTerms, "; ") + "])"
 	case "dropempties":
@@ -627,11 +627,11 @@ func coqOp(o opspec, opTerms []string, st []obsRes, hashTab [][2]string) string 
 	case "clear":
 		return "OClear"
 	case "prefix":
-		return "(OPrefix " + qs(o.Str) + ")"
+		return "(OPrefix " + c07Qs(o.Str) + ")"
 	case "suffix":
 		return "(OSuffix " + coqStr(o.Str) + ")"
 	case "namespace":
-		return "(ONamespace " + qs(o.Str) + ")"
+		return "(ONamespace " + c07Qs(o.Str) + ")"
 	case "hash":
 		parts := make([]string, len(hashTab))
 		for i, h := range hashTab {
@@ -644,7 +644,7 @@ func coqOp(o opspec, opTerms []string, st []obsRes, hashTab [][2]string) string 
 		ids := []string{}
 		for _, i := range o.Sel {
 			if i < len(st) {
-				ids = append(ids, coqId(st[i].id))
+				ids = append(ids, c07CoqId(st[i].id))
 			}
 		}
 		scope := []string{}
@@ -655,10 +655,10 @@ func coqOp(o opspec, opTerms []string, st []obsRes, hashTab [][2]string) string 
 				continue
 			}
 			seenGV[gv] = true
-			scope = append(scope, fmt.Sprintf("(%s, %s, %s)", qs(x.id.Group), qs(x.id.Version),
+			scope = append(scope, fmt.Sprintf("(%s, %s, %s)", c07Qs(x.id.Group), c07Qs(x.id.Version),
 				coqBool(resid.NewGvk(x.id.Group, x.id.Version, o.PKind).IsClusterScoped())))
 		}
-		return fmt.Sprintf("(OSmPatch [%s] [%s] %s %s %s %s %s)", strings.Join(scope, "; "), strings.Join(ids, "; "), qs(o.PName), qs(o.PKind),
+		return fmt.Sprintf("(OSmPatch [%s] [%s] %s %s %s %s %s)", strings.Join(scope, "; "), strings.Join(ids, "; "), c07Qs(o.PName), c07Qs(o.PKind),
 			coqBool(o.AllowN), coqBool(o.AllowK), coqBool(o.Del))
 	case "rawrename":
 		return fmt.Sprintf("(ORawRename %s %s)", coqStr(o.PName), coqStr(o.Str))
@@ -670,7 +670,7 @@ func coqOp(o opspec, opTerms []string, st []obsRes, hashTab [][2]string) string 
 	return "OClear"
 }
 
-func (g *c07gen) genOp(m resmap.ResMap) opspec {
+func (g *c07gen) genOp(m resmap.ResMap) c07Opspec {
 	cur := m.Resources()
 	pickCur := func() *resource.Resource {
 		if len(cur) == 0 {
@@ -698,10 +698,10 @@ func (g *c07gen) genOp(m resmap.ResMap) opspec {
 	}
 	switch {
 	case k < 10:
-		return opspec{Op: "append", Res: []rspec{g.spec()}}
+		return c07Opspec{Op: "append", Res: []c07Rspec{g.spec()}}
 	case k < 17:
 		n := 1 + g.rng.Intn(3)
-		o := opspec{Op: "appendall"}
+		o := c07Opspec{Op: "appendall"}
 		for i := 0; i < n; i++ {
 			o.Res = append(o.Res, g.spec())
 		}
@@ -716,12 +716,12 @@ func (g *c07gen) genOp(m resmap.ResMap) opspec {
 				s.Ns = "default"
 			}
 		}
-		return opspec{Op: "replace", Res: []rspec{s}}
+		return c07Opspec{Op: "replace", Res: []c07Rspec{s}}
 	case k < 31:
-		id := idspec{Group: "", Version: "v1", Kind: "ConfigMap", Name: g.rng.Pick(c07Names), Ns: g.rng.Pick(c07Nss)}
+		id := c07Idspec{Group: "", Version: "v1", Kind: "ConfigMap", Name: g.rng.Pick(c07Names), Ns: g.rng.Pick(c07Nss)}
 		if t := pickCur(); t != nil && g.rng.Chance(80) {
 			c := t.CurId()
-			id = idspec{c.Group, c.Version, c.Kind, c.Name, c.Namespace}
+			id = c07Idspec{c.Group, c.Version, c.Kind, c.Name, c.Namespace}
 			if g.rng.Chance(15) {
 				if id.Ns == "" {
 					id.Ns = "default"
@@ -730,24 +730,24 @@ func (g *c07gen) genOp(m resmap.ResMap) opspec {
 				}
 			}
 		}
-		return opspec{Op: "remove", Id: &id}
+		return c07Opspec{Op: "remove", Id: &id}
 	case k < 45:
 		n := 1 + g.rng.Intn(2)
-		o := opspec{Op: "absorball"}
+		o := c07Opspec{Op: "absorball"}
 		for i := 0; i < n; i++ {
 			o.Res = append(o.Res, g.absorbSpec(cur))
 		}
 		return o
 	case k < 49:
-		return opspec{Op: "dropempties"}
+		return c07Opspec{Op: "dropempties"}
 	case k < 50:
-		return opspec{Op: "clear"}
+		return c07Opspec{Op: "clear"}
 	case k < 57:
-		return opspec{Op: "prefix", Str: g.rng.Pick([]string{"p-", "p-", "", "x"})}
+		return c07Opspec{Op: "prefix", Str: g.rng.Pick([]string{"p-", "p-", "", "x"})}
 	case k < 63:
-		return opspec{Op: "suffix", Str: g.rng.Pick([]string{"-s", "-s", "", "y"})}
+		return c07Opspec{Op: "suffix", Str: g.rng.Pick([]string{"-s", "-s", "", "y"})}
 	case k < 70:
-		return opspec{Op: "namespace", Str: g.rng.Pick([]string{"x", "y", "x", "", "default"})}
+		return c07Opspec{Op: "namespace", Str: g.rng.Pick([]string{"x", "y", "x", "", "default"})}
 	case k < 75:
 		if g.rng.Chance(40) {
 			// adversarial: give another resource of the same kind and namespace the name a hashed one is about to get
@@ -762,21 +762,21 @@ func (g *c07gen) genOp(m resmap.ResMap) opspec {
 					ia, ib := a.CurId(), b.CurId()
 					if ia.Gvk.Equals(ib.Gvk) && ia.IsNsEquals(ib) && tagOf(b) != "" {
 						if h, err := a.Hash(c07Factory.Hasher()); err == nil {
-							g.pending = append(g.pending, opspec{Op: "hash"})
+							g.pending = append(g.pending, c07Opspec{Op: "hash"})
 							if g.rng.Chance(50) {
-								g.pending = append(g.pending, opspec{Op: "ignorelocal"})
+								g.pending = append(g.pending, c07Opspec{Op: "ignorelocal"})
 							}
-							return opspec{Op: "rawrename", PName: tagOf(b), Str: a.GetName() + "-" + h}
+							return c07Opspec{Op: "rawrename", PName: tagOf(b), Str: a.GetName() + "-" + h}
 						}
 					}
 				}
 			}
 		}
-		return opspec{Op: "hash"}
+		return c07Opspec{Op: "hash"}
 	case k < 81:
-		return opspec{Op: "sortlegacy"}
+		return c07Opspec{Op: "sortlegacy"}
 	case k < 88:
-		o := opspec{Op: "smpatch", PName: g.rng.Pick(c07Names), PKind: g.rng.Pick([]string{"ConfigMap", "Secret", "Deployment"}),
+		o := c07Opspec{Op: "smpatch", PName: g.rng.Pick(c07Names), PKind: g.rng.Pick([]string{"ConfigMap", "Secret", "Deployment"}),
 			AllowN: g.rng.Chance(50), AllowK: g.rng.Chance(25), Del: g.rng.Chance(12)}
 		if g.rng.Chance(15) {
 			o.PKind = "Namespace"
@@ -798,7 +798,7 @@ func (g *c07gen) genOp(m resmap.ResMap) opspec {
 					}
 					ia, ib := a.CurId(), b.CurId()
 					if ia.Gvk.Equals(ib.Gvk) && ia.IsNsEquals(ib) && ia.Name != ib.Name && ia.Name != "" {
-						return opspec{Op: "rawrename", PName: tagOf(b), Str: ia.Name}
+						return c07Opspec{Op: "rawrename", PName: tagOf(b), Str: ia.Name}
 					}
 				}
 			}
@@ -812,15 +812,15 @@ func (g *c07gen) genOp(m resmap.ResMap) opspec {
 				}
 			}
 		}
-		return opspec{Op: "rawrename", PName: tag, Str: g.rng.Pick(c07Names)}
+		return c07Opspec{Op: "rawrename", PName: tag, Str: g.rng.Pick(c07Names)}
 	case k < 97:
 		for _, t := range cur {
 			if t.IsNilOrEmpty() {
 				// IgnoreLocal is only reached after DropEmpties (multiTransformer drops empties after every transformer)
-				return opspec{Op: "dropempties"}
+				return c07Opspec{Op: "dropempties"}
 			}
 		}
-		return opspec{Op: "ignorelocal"}
+		return c07Opspec{Op: "ignorelocal"}
 	default:
 		bm := []string{}
 		if g.rng.Chance(30) {
@@ -829,13 +829,13 @@ func (g *c07gen) genOp(m resmap.ResMap) opspec {
 		if g.rng.Chance(30) {
 			bm = append(bm, "transformerAnnotations")
 		}
-		return opspec{Op: "strip", Bm: bm}
+		return c07Opspec{Op: "strip", Bm: bm}
 	}
 }
 
 // patch resource for OSmPatch
-func smPatchSpec(o opspec) rspec {
-	s := rspec{APIVersion: "v1", Kind: o.PKind, Name: o.PName, Tag: ""}
+func c07SmPatchSpec(o c07Opspec) c07Rspec {
+	s := c07Rspec{APIVersion: "v1", Kind: o.PKind, Name: o.PName, Tag: ""}
 	ann := map[string]string{}
 	if o.AllowN {
 		ann[c07AllowName] = "enabled"
@@ -849,8 +849,8 @@ func smPatchSpec(o opspec) rspec {
 	return s
 }
 
-func buildSmPatch(o opspec) (*resource.Resource, error) {
-	s := smPatchSpec(o)
+func c07BuildSmPatch(o c07Opspec) (*resource.Resource, error) {
+	s := c07SmPatchSpec(o)
 	m := map[string]interface{}{"apiVersion": s.APIVersion, "kind": s.Kind}
 	md := map[string]interface{}{"name": s.Name}
 	if len(s.Ann) > 0 {
@@ -878,9 +878,9 @@ func runSeq07(r *Run, g *c07gen, sq *seq07, nOps int, toModel bool) {
 			sq.Init = append(sq.Init, g.spec())
 		}
 	}
-	kept := []rspec{}
+	kept := []c07Rspec{}
 	for _, s := range sq.Init {
-		term, res, err := coqSpec(s)
+		term, res, err := c07CoqSpec(s)
 		if err != nil {
 			continue
 		}
@@ -892,14 +892,14 @@ func runSeq07(r *Run, g *c07gen, sq *seq07, nOps int, toModel bool) {
 	}
 	sq.Init = kept
 	stepTerms := []string{}
-	final := observe(m)
+	final := c07Observe(m)
 	generated := sq.Ops == nil
 	nontrivial := false
 	report := func(law, cls, detail string) {
 		r.Violation(OracleViolation{Law: law, Class: cls, Detail: detail, Replay: *sq})
 	}
 	for i := 0; ; i++ {
-		var o opspec
+		var o c07Opspec
 		if generated {
 			if i >= nOps {
 				break
@@ -912,13 +912,13 @@ func runSeq07(r *Run, g *c07gen, sq *seq07, nOps int, toModel bool) {
 			}
 			o = sq.Ops[i]
 		}
-		before := observe(m)
+		before := c07Observe(m)
 		// operands
 		built := []*resource.Resource{}
 		opTerms := []string{}
 		ok := true
 		if o.Op == "smpatch" {
-			p, err := buildSmPatch(o)
+			p, err := c07BuildSmPatch(o)
 			if err != nil {
 				ok = false
 			}
@@ -926,7 +926,7 @@ func runSeq07(r *Run, g *c07gen, sq *seq07, nOps int, toModel bool) {
 		} else {
 			seen := []resid.ResId{}
 			for _, s := range o.Res {
-				term, res, err := coqSpec(s)
+				term, res, err := c07CoqSpec(s)
 				if err != nil {
 					ok = false
 					break
@@ -968,18 +968,18 @@ func runSeq07(r *Run, g *c07gen, sq *seq07, nOps int, toModel bool) {
 				}
 			}
 		}
-		nm, cls, msg := execOp(m, o, [][]*resource.Resource{built}, 0)
+		nm, cls, msg := c07ExecOp(m, o, [][]*resource.Resource{built}, 0)
 		m = nm
 		r.Count("op", o.Op)
 		r.Count("op_class", o.Op+"/"+cls)
-		after := []obsRes{}
+		after := []c07ObsRes{}
 		if cls == ClsOk {
-			after = observe(m)
-			if o.Op != "dropempties" && o.Op != "clear" && coqState(before) != coqState(after) {
+			after = c07Observe(m)
+			if o.Op != "dropempties" && o.Op != "clear" && c07CoqState(before) != c07CoqState(after) {
 				nontrivial = true
 			}
 		}
-		stepTerms = append(stepTerms, fmt.Sprintf("(mkStep %s %s %s)", coqOp(o, opTerms, before, hashTab), cls, coqIds(after)))
+		stepTerms = append(stepTerms, fmt.Sprintf("(mkStep %s %s %s)", c07CoqOp(o, opTerms, before, hashTab), cls, c07CoqIds(after)))
 		if cls == ClsOk {
 			final = after
 		}
@@ -988,43 +988,43 @@ func runSeq07(r *Run, g *c07gen, sq *seq07, nOps int, toModel bool) {
 			break
 		}
 		// ---- step laws on the implementation (domains = hypotheses of the theorems) ----
-		uniqB, uniqA := idsUnique(before), idsUnique(after)
+		uniqB, uniqA := c07IdsUnique(before), c07IdsUnique(after)
 		switch o.Op {
 		case "append", "appendall", "replace", "remove", "absorball", "dropempties", "clear", "ignorelocal", "strip":
 			if uniqB && !uniqA {
-				report("ids_unique", "C07/ids_unique/step/"+o.Op, "ids were unique before "+o.Op+" and are not afterwards: "+coqState(after))
+				report("ids_unique", "C07/ids_unique/step/"+o.Op, "ids were unique before "+o.Op+" and are not afterwards: "+c07CoqState(after))
 			}
 		case "sortlegacy", "smpatch":
 			if !uniqA {
-				report("ids_unique", "C07/ids_unique/reappend/"+o.Op, "ids not unique after a successful "+o.Op+": "+coqState(after))
+				report("ids_unique", "C07/ids_unique/reappend/"+o.Op, "ids not unique after a successful "+o.Op+": "+c07CoqState(after))
 			}
 		case "namespace":
-			if !anyEmpty(before) && o.Str != "" && !uniqA {
-				report("ids_unique", "C07/ids_unique/namespace", "ids not unique after a successful namespace transformation: "+coqState(after))
+			if !c07AnyEmpty(before) && o.Str != "" && !uniqA {
+				report("ids_unique", "C07/ids_unique/namespace", "ids not unique after a successful namespace transformation: "+c07CoqState(after))
 			}
 			if o.Str == "" && uniqB && !uniqA {
 				report("ids_unique", "C07/ids_unique/namespace", "empty namespace changed identities")
 			}
 		case "hash":
 			// C07_ids_unique_hash_partial: equal hash lengths and no plain resource already carrying a hashed name
-			if uniqB && hashSideConditions(before, hashTab) && !uniqA {
-				report("ids_unique", "C07/ids_unique/hash", "ids were unique, no plain resource carried a hashed name, yet ids clash after hashing: "+coqState(after))
+			if uniqB && c07HashSideConditions(before, hashTab) && !uniqA {
+				report("ids_unique", "C07/ids_unique/hash", "ids were unique, no plain resource carried a hashed name, yet ids clash after hashing: "+c07CoqState(after))
 			}
 		case "prefix", "suffix":
-			if uniqB && !anyEmpty(before) && uniformKinds(before) && !uniqA {
-				report("ids_unique", "C07/ids_unique/rename/"+o.Op, "ids were unique before a uniform "+o.Op+" and are not afterwards: "+coqState(after))
+			if uniqB && !c07AnyEmpty(before) && c07UniformKinds(before) && !uniqA {
+				report("ids_unique", "C07/ids_unique/rename/"+o.Op, "ids were unique before a uniform "+o.Op+" and are not afterwards: "+c07CoqState(after))
 			}
 		}
 		if o.Op == "ignorelocal" {
 			for _, x := range after {
 				if x.id.Kind == "" || (x.id.Name == "" && !strings.HasSuffix(x.id.Kind, "List")) {
-					report("wellformed", "C07/wellformed/ignorelocal", "resource without kind or name survived IgnoreLocal: "+coqObs(x))
+					report("wellformed", "C07/wellformed/ignorelocal", "resource without kind or name survived IgnoreLocal: "+c07CoqObs(x))
 				}
 			}
 		}
-		if o.Op == "strip" && !anyEmpty(before) {
+		if o.Op == "strip" && !c07AnyEmpty(before) {
 			for _, x := range after {
-				if bad := internalKeysPresent(x.ann, o.Bm); len(bad) > 0 {
+				if bad := c07InternalKeysPresent(x.ann, o.Bm); len(bad) > 0 {
 					report("hygiene", "C07/hygiene/strip", fmt.Sprintf("internal annotations %v left after stripping (buildMetadata %v)", bad, o.Bm))
 				}
 			}
@@ -1032,7 +1032,7 @@ func runSeq07(r *Run, g *c07gen, sq *seq07, nOps int, toModel bool) {
 	}
 	r.Count("seq_len", fmt.Sprint(len(stepTerms)))
 	if toModel {
-		term := fmt.Sprintf("(CSeq [%s] [%s] %s)", strings.Join(initTerms, "; "), strings.Join(stepTerms, "; "), coqState(final))
+		term := fmt.Sprintf("(CSeq [%s] [%s] %s)", strings.Join(initTerms, "; "), strings.Join(stepTerms, "; "), c07CoqState(final))
 		r.AddCase(term, *sq, nontrivial)
 	} else {
 		b, _ := json.Marshal(sq)
@@ -1079,7 +1079,7 @@ func genStrip07(rng *Rng) strip07 {
 }
 
 func runStrip07(r *Run, c strip07, toModel bool) {
-	s := rspec{APIVersion: "v1", Kind: "ConfigMap", Name: "a", Ann: c.Ann, Tag: "t"}
+	s := c07Rspec{APIVersion: "v1", Kind: "ConfigMap", Name: "a", Ann: c.Ann, Tag: "t"}
 	res, err := s.build()
 	if err != nil {
 		r.Meta.Skipped++
@@ -1091,8 +1091,8 @@ func runStrip07(r *Run, c strip07, toModel bool) {
 		return
 	}
 	before := res.GetAnnotations()
-	o := opspec{Op: "strip", Bm: c.Bm}
-	_, cls, _ := execOp(m, o, nil, 0)
+	o := c07Opspec{Op: "strip", Bm: c.Bm}
+	_, cls, _ := c07ExecOp(m, o, nil, 0)
 	r.Count("strip_class", cls)
 	r.Count("strip_size", fmt.Sprint(len(before)))
 	if cls != ClsOk {
@@ -1100,16 +1100,16 @@ func runStrip07(r *Run, c strip07, toModel bool) {
 		return
 	}
 	after := m.Resources()[0].GetAnnotations()
-	if bad := internalKeysPresent(after, c.Bm); len(bad) > 0 {
+	if bad := c07InternalKeysPresent(after, c.Bm); len(bad) > 0 {
 		r.Violation(OracleViolation{Law: "hygiene", Class: "C07/hygiene/strip", Detail: fmt.Sprintf("internal annotations %v left (buildMetadata %v)", bad, c.Bm), Replay: c})
 	}
 	// stripping twice changes nothing more
-	execOp(m, o, nil, 0)
-	if coqAnn(m.Resources()[0].GetAnnotations()) != coqAnn(after) {
+	c07ExecOp(m, o, nil, 0)
+	if c07CoqAnn(m.Resources()[0].GetAnnotations()) != c07CoqAnn(after) {
 		r.Violation(OracleViolation{Law: "fixpoint", Class: "C07/fixpoint/strip-idempotent", Detail: "second strip changed the annotations", Replay: c})
 	}
 	if toModel {
-		r.AddCase(fmt.Sprintf("(CStrip %s %s %s)", coqStrList(c.Bm), coqAnn(before), coqAnn(after)), c, len(before) != len(after))
+		r.AddCase(fmt.Sprintf("(CStrip %s %s %s)", coqStrList(c.Bm), c07CoqAnn(before), c07CoqAnn(after)), c, len(before) != len(after))
 	} else {
 		b, _ := json.Marshal(c)
 		r.AddEval(string(b), len(before) != len(after))
@@ -1199,7 +1199,7 @@ func replayC07(path string) (bool, string, error) {
 			return false, "", err
 		}
 		if sq.Ops == nil {
-			sq.Ops = []opspec{}
+			sq.Ops = []c07Opspec{}
 		}
 		runSeq07(r, &c07gen{rng: NewRng(1)}, &sq, len(sq.Ops), true)
 		detail = "operation sequence replayed: " + strings.Join(r.cases, "\n")
